@@ -322,4 +322,104 @@ theorem queries_total {s : St} (h : Inv s) {v w : Nat} (hv : v < s.n) (hw : w < 
   · simp only [equalS, hdv, hdw, Option.bind_eq_bind, Option.bind_some, contentVal_eq h, ha, hb, Option.pure_def]
     split <;> rfl
 
+/-- `equalsIgnoreCase`: equal lengths and equal ASCII-lowered chars -/
+theorem equalsIC_eq {s s' : St} (h : Inv s) {v w : Nat} (hv : v < s.n) (hw : w < s.n) {r : Bool}
+    (e : equalsIC s v w = some (s', r)) {a b : List Nat} (ha : allSome (absVar s v) = some a)
+    (hb : allSome (absVar s w) = some b) (hza : ∀ x ∈ a, x ≠ 0) (hzb : ∀ x ∈ b, x ≠ 0) :
+    (r = true ↔ a.map toLower = b.map toLower) ∧ ∀ u, absVar s' u = absVar s u := by
+  obtain ⟨dv, hdv⟩ := desc_some h v
+  obtain ⟨dw, hdw⟩ := desc_some h w
+  have lv : dv.len = a.length := by rw [desc_len h hdv, allSome_eq ha, List.length_map]
+  have lw : dw.len = b.length := by rw [desc_len h hdw, allSome_eq hb, List.length_map]
+  simp only [equalsIC, hdv, hdw, Option.bind_eq_bind, Option.bind_some] at e
+  by_cases c : dv.len = dw.len
+  · have c' : ¬ dv.len ≠ dw.len := fun x => x c
+    rw [if_neg c'] at e
+    simp only [Option.bind_eq_some_iff, Option.pure_def, Option.some.injEq, Prod.mk.injEq] at e
+    obtain ⟨⟨s2, k⟩, h2, rfl, rfl⟩ := e
+    obtain ⟨rfl, ab⟩ := compareIC_eq h hv hw h2 ha hb hza hzb
+    refine ⟨?_, ab⟩
+    have h1 : ∀ x ∈ a.map toLower, x ≠ 0 := by
+      intro x hx; obtain ⟨y, hy, rfl⟩ := List.mem_map.mp hx; exact toLower_ne_zero (hza y hy)
+    have h2' : ∀ x ∈ b.map toLower, x ≠ 0 := by
+      intro x hx; obtain ⟨y, hy, rfl⟩ := List.mem_map.mp hx; exact toLower_ne_zero (hzb y hy)
+    rw [← strcmp_eq_zero h1 h2']
+    simp
+  · have c' : dv.len ≠ dw.len := c
+    rw [if_pos c'] at e
+    simp only [Option.pure_def, Option.some.injEq, Prod.mk.injEq] at e
+    obtain ⟨rfl, rfl⟩ := e
+    refine ⟨?_, fun _ => rfl⟩
+    constructor
+    · intro x; cases x
+    · intro x
+      have := congrArg List.length x
+      simp only [List.length_map] at this
+      omega
+
+/-- `toBool()` against its reference -/
+theorem toBool_eq {s s' : St} (h : Inv s) {v : Nat} (hv : v < s.n) {r : Bool}
+    (e : toBool s v = some (s', r)) {c : List Nat} (hc : allSome (absVar s v) = some c)
+    (hz : ∀ x ∈ c, x ≠ 0) : (r = false ↔ toBoolFalse c) ∧ ∀ u, absVar s' u = absVar s u := by
+  obtain ⟨d, hd⟩ := desc_some h v
+  have hcl : c.length = d.len := by rw [desc_len h hd, allSome_eq hc, List.length_map]
+  simp only [toBool, hd, Option.bind_eq_bind, Option.bind_some] at e
+  by_cases l0 : d.len = 0
+  · simp only [l0, if_true, Option.pure_def, Option.some.injEq, Prod.mk.injEq] at e
+    obtain ⟨rfl, rfl⟩ := e
+    have : c = [] := List.eq_nil_of_length_eq_zero (by omega)
+    exact ⟨by simp [toBoolFalse, this], fun _ => rfl⟩
+  · simp only [l0, if_false, Option.bind_eq_some_iff, Option.pure_def, Option.some.injEq, Prod.mk.injEq] at e
+    obtain ⟨s1, h1, cc, h2, a, h3, rfl, rfl⟩ := e
+    obtain ⟨E, t⟩ := eff_cview h hv h1
+    have ea := cstrVar_eq E.inv t (by rw [E.self]; exact hc) hz
+    rw [ea] at h3; injection h3 with h3; subst h3
+    rw [contentVal_eq E.inv, E.self, hc] at h2
+    injection h2 with h2; subst h2
+    exact ⟨toBool_spec c hz, E.silent.abs⟩
+
+theorem queries_total2 {s : St} (h : Inv s) {v w : Nat} (hv : v < s.n) {a b : List Nat}
+    (ha : allSome (absVar s v) = some a) (hb : allSome (absVar s w) = some b) (hza : 0 ∉ a)
+    (needle : List Nat) (c st : Nat) :
+    (startsWith s v w).isSome ∧ (endsWith s v w).isSome ∧ (findSFrom s v needle st).isSome ∧
+    (findOneOfFrom s v needle st).isSome ∧ (findCFrom s v c st).isSome := by
+  obtain ⟨dv, hdv⟩ := desc_some h v
+  obtain ⟨dw, hdw⟩ := desc_some h w
+  have lv : dv.len = a.length := by rw [desc_len h hdv, allSome_eq ha, List.length_map]
+  have lw : dw.len = b.length := by rw [desc_len h hdw, allSome_eq hb, List.length_map]
+  have fromCase : st < dv.len → ∃ s1, cview s v = some s1 ∧ cstrVar s1 v st = some (a.drop st) := by
+    intro hlt
+    obtain ⟨s1, h1⟩ := cview_some h v
+    obtain ⟨E, t⟩ := eff_cview h hv h1
+    exact ⟨s1, h1, cstrVar_from E.inv t (by rw [E.self]; exact ha) (nulFree_of hza) (by omega)⟩
+  refine ⟨?_, ?_, ?_, ?_, ?_⟩
+  · simp only [startsWith, hdv, hdw, Option.bind_eq_bind, Option.bind_some]
+    by_cases c1 : dv.len < dw.len
+    · simp [c1]
+    · simp only [c1, if_false]
+      rw [rd_prefix h hdv (by omega), allSome_eq ha, ← List.map_take]
+      simp only [Option.bind_some, allSome_map, contentVal_eq h, hb, Option.pure_def, Option.isSome_some]
+  · simp only [endsWith, hdv, hdw, Option.bind_eq_bind, Option.bind_some]
+    by_cases c1 : dv.len < dw.len
+    · simp [c1]
+    · simp only [c1, if_false]
+      have eo : dv.off + dv.len - dw.len = dv.off + (dv.len - dw.len) := by omega
+      rw [eo, rd_mid h hdv (by omega), allSome_eq ha, ← List.map_drop, ← List.map_take]
+      simp only [Option.bind_some, allSome_map, contentVal_eq h, hb, Option.pure_def, Option.isSome_some]
+  · simp only [findSFrom, hdv, Option.bind_eq_bind, Option.bind_some]
+    by_cases c1 : st ≥ dv.len
+    · simp [c1]
+    · obtain ⟨s1, h1, h2⟩ := fromCase (by omega)
+      simp [c1, h1, h2]
+  · simp only [findOneOfFrom, hdv, Option.bind_eq_bind, Option.bind_some]
+    by_cases c1 : st ≥ dv.len
+    · simp [c1]
+    · obtain ⟨s1, h1, h2⟩ := fromCase (by omega)
+      simp [c1, h1, h2]
+  · simp only [findCFrom, hdv, Option.bind_eq_bind, Option.bind_some]
+    by_cases c1 : st ≥ dv.len
+    · simp [c1]
+    · obtain ⟨s1, h1, h2⟩ := fromCase (by omega)
+      simp [c1, h1, h2]
+
 end Nstd.Str
